@@ -70,6 +70,7 @@ func init() {
 	// C06 with expiry and a moving clock: operations sample the clock when they start, other tasks
 	// advance it meanwhile (reads near a deadline race with writes and sweeps).
 	c06exp := &ConcOpts{
+		Duel:   true,
 		Ticker: true, AimAdvance: true,
 		Profile: Profile{Prop: "C06", ForceExp: true, NoRef: true, Keys: [2]int{1, 5}},
 		OpW:     zeroExcept(map[string]int{"set": 24, "setifabsent": 6, "get": 12, "compute": 5, "computeifabsent": 3, "computeifpresent": 3, "invalidate": 5, "advance": 14, "cleanup": 5, "load": 3, "setexpires": 2}),
@@ -83,6 +84,7 @@ func init() {
 	expOps := zeroExcept(map[string]int{"set": 22, "setifabsent": 6, "get": 12, "getentry": 2, "compute": 5, "computeifabsent": 3, "computeifpresent": 3,
 		"invalidate": 5, "advance": 12, "cleanup": 4, "load": 3, "setexpires": 3, "setmax": 1, "invalidateall": 1, "hottest": 1, "coldest": 1, "bulkget": 1})
 	c05exp := &ConcOpts{
+		Duel:   true,
 		Ticker: true, AimAdvance: true,
 		Profile: Profile{Prop: "C05", ForceExp: true, NoRef: true, Keys: [2]int{2, 10}},
 		OpW:     expOps, Tasks: [2]int{2, 4}, OpsPer: [2]int{4, 22}, Prefill: [2]int{0, 6},
@@ -91,6 +93,7 @@ func init() {
 	}
 	Props["C05"].Engines = append(Props["C05"].Engines, &concEngine{opts: c05exp})
 	c04exp := &ConcOpts{
+		Duel:   true,
 		Ticker: true, AimAdvance: true,
 		Profile: Profile{Prop: "C04", ForceExp: true, BoundOnly: true, NoRef: true, Keys: [2]int{3, 12}},
 		OpW:     expOps, Tasks: [2]int{2, 4}, OpsPer: [2]int{4, 22}, Prefill: [2]int{0, 8},
@@ -139,6 +142,15 @@ func init() {
 	c20exp.Ticker, c20exp.AimAdvance = true, true
 	c20exp.NonTrivial = func(o *ConcOutcome) bool { return o.Switches > 4 && o.Probes["atomic-events:Expiration"] > 0 }
 	Props["C20"].Engines = append(Props["C20"].Engines, &concEngine{opts: &c20exp})
+	// C20 with refresh: reloads run on the executor while clients replace / invalidate the entry;
+	// no background work may touch the lookup counters, every reload is a counted load.
+	c20ref := *c20
+	c20ref.Profile = Profile{Prop: "C20", Stats: true, ForceRef: true, Keys: [2]int{1, 5}}
+	c20ref.OpW = zeroExcept(map[string]int{"set": 10, "get": 12, "getentry": 3, "load": 16, "bulkget": 5, "compute": 4, "computeifabsent": 2, "computeifpresent": 2,
+		"invalidate": 6, "getquiet": 2, "advance": 14, "refresh": 4, "bulkrefresh": 2, "setrefreshable": 2})
+	c20ref.Executors = []string{"default", "queued", "queued"}
+	c20ref.NonTrivial = func(o *ConcOutcome) bool { return o.Switches > 4 && o.Probes["loader-calls"] > 0 }
+	Props["C20"].Engines = append(Props["C20"].Engines, &concEngine{opts: &c20ref})
 	c08exp := *Props["C08"].Conc
 	c08exp.Profile = Profile{Prop: "C08", ForceExp: true, Keys: [2]int{1, 4}}
 	c08exp.OpW = zeroExcept(map[string]int{"load": 28, "bulkget": 10, "refresh": 5, "bulkrefresh": 3, "set": 6, "invalidate": 5, "get": 5, "compute": 2, "advance": 10, "cleanup": 3})
